@@ -7,7 +7,9 @@ SPEC = dict(
     level='exploration',
     rule='world: one seeded scenario of 5..25 external steps in virtual time over timers (intervals 1,2,3,5,10,1000 ms, bursts created in one tick), socket-pair clients, '
          'loopback listeners with raw connections, establishers to an open and a closed port; random Server API calls between run() calls and inside every callback kind '
-         '(create, remove self/others - preferring sockets whose event is selected but undelivered -, write with forced partial/EAGAIN/error sends, suspend/resume, interrupt once/twice), '
+         '(create, remove self/others - preferring sockets whose event is selected but undelivered -, write with forced partial/EAGAIN/error sends, suspend/resume, interrupt once/twice); '
+         'onAccepted and onConnected additionally act on the client they are handed before returning its callback object (nothing / write / suspend / suspend+write / write+suspend, the write '
+         'with a forced partial / EAGAIN / hard-error send or left to the kernel) and the peer talks at once; '
          'EINTR and oversleep injected into epoll_wait. equal-due: enumerated - n timers due in the same tick, timer i removes timer j at its first activation (all n<=N, i, j, with/without slot reuse). '
          'threads: 1..3 threads call interrupt() at seeded real offsets while run() polls (plain and tsan builds). '
          'distinct = hash of the callback/action sequence; non-trivial = at least one removal and three callbacks (threads: at least two run() returns). '
@@ -32,9 +34,15 @@ SPEC = dict(
     floors={Q: dict(cases=11000, callbacks=2000000, timer_activations=1500000, timers_removed=80000, timers_removed_from_equal_run_of_3plus=40000, clients_removed=70000,
                     removed_with_selected_event=3000, onAccepted=30000, onConnected=12000, onAbolished=8000, independent_poll_checks=1500000, timer_due_checks=500000,
                     eintr_injected=4000, oversleep_injected=50000, run_returns=100000, threaded_interrupt_calls=8000, threaded_run_returns=6000,
-                    **{'set:removal_classes': 20, 'set:interrupt_venues': 7}),
+                    writes_in_onAccepted=20000, writes_in_onAccepted_leaving_backlog=12000, suspends_in_onAccepted=15000, nothing_in_onAccepted=9000,
+                    writes_in_onConnected=9000, writes_in_onConnected_leaving_backlog=5000, suspends_in_onConnected=7000, nothing_in_onConnected=4000,
+                    resumes_with_pending_data=11000, streams_verified_end_to_end=25000,
+                    **{'set:removal_classes': 20, 'set:interrupt_venues': 7, 'set:fresh_client_acts': 26}),
             T: dict(cases=170000, callbacks=4000000, timer_activations=1600000, timers_removed=160000, timers_removed_from_equal_run_of_3plus=24000, clients_removed=80000,
                     removed_with_selected_event=8000, onAccepted=16000, onConnected=8000, onAbolished=4000, independent_poll_checks=1600000, timer_due_checks=1600000,
                     eintr_injected=8000, oversleep_injected=16000, run_returns=160000, threaded_interrupt_calls=100000, threaded_run_returns=50000,
-                    **{'set:removal_classes': 20, 'set:interrupt_venues': 7})},
+                    writes_in_onAccepted=350000, writes_in_onAccepted_leaving_backlog=210000, suspends_in_onAccepted=270000, nothing_in_onAccepted=150000,
+                    writes_in_onConnected=150000, writes_in_onConnected_leaving_backlog=90000, suspends_in_onConnected=120000, nothing_in_onConnected=65000,
+                    resumes_with_pending_data=190000, streams_verified_end_to_end=400000,
+                    **{'set:removal_classes': 20, 'set:interrupt_venues': 7, 'set:fresh_client_acts': 26})},
 )
